@@ -435,6 +435,17 @@ func main() {
 		h := newHistory(streamNames[streamDeep], fmt.Sprintf("%d lexical errors in one file", n), []string{"errs.yang"}, []string{manyErrors(r, n)})
 		jobs = append(jobs, job{stream: streamDeep, idx: n, h: &h})
 	}
+	// the lexer's error limit: 7–10 invalid escapes in each layout, then each kind of lexer construct
+	for n := 7; n <= 10; n++ {
+		for layout := 0; layout < 4; layout++ {
+			for tail := range errTails {
+				r := f.Rand(97000000 + n*10000 + layout*1000 + tail)
+				h := newHistory(streamNames[streamDeep], fmt.Sprintf("%d invalid escapes (layout %d), then: %s", n, layout, errTails[tail].name),
+					[]string{"errs.yang"}, []string{errorBudgetText(r, n, layout, tail)})
+				jobs = append(jobs, job{stream: streamDeep, idx: 1000000 + n*10000 + layout*1000 + tail, h: &h})
+			}
+		}
+	}
 	for i := 0; i < nGrammar; i++ {
 		jobs = append(jobs, job{stream: streamGrammar, idx: i})
 	}
@@ -520,7 +531,8 @@ func main() {
 		"also yang.Parse alone on every text. Streams in order: corpus/C01 (crash witnesses of DESIGN section 8), every .yang file and every YANG literal of " +
 		"pkg/yang/*_test.go alone / as written groups / in pairs, grammar-aware mutation of generated sets and of those texts (incl. numeric boundary arguments " +
 		"combined with range/length restrictions and typedef chains, and texts that Modules.Parse rejects late after typedef-bearing statements), byte-level mutation, nesting " +
-		"depth up to 10^4 and 7-24 lexical errors per file. evaluations = histories run; distinct_nontrivial = distinct histories (by hash of names, texts, " +
+		"depth up to 10^4, 7-24 lexical errors per file, and the lexer's error limit (7-10 invalid escapes in four layouts followed by each kind of lexer construct, " +
+		"in particular invalid escapes before multi-byte runes; the same as a byte-level operator on existing texts). evaluations = histories run; distinct_nontrivial = distinct histories (by hash of names, texts, " +
 		"options) in which at least one text passes the generic parser, i.e. reaches the AST builder"
 	res.Write(f.Out)
 }
